@@ -336,6 +336,10 @@ func (nd *NodeDiff) LeftNode() Node {
 		n = nd.Right
 	}
 
+	// The compared nodes must never be modified, so the flattened node is built
+	// on a copy. All of the children are represented by nd.Children.
+	n = flattenedNodeHeader(n)
+
 	for _, child := range nd.Children {
 		n.AddNode(child.LeftNode())
 	}
@@ -353,11 +357,28 @@ func (nd *NodeDiff) RightNode() Node {
 		n = nd.Left
 	}
 
+	// The compared nodes must never be modified, so the flattened node is built
+	// on a copy. All of the children are represented by nd.Children.
+	n = flattenedNodeHeader(n)
+
 	for _, child := range nd.Children {
 		n.AddNode(child.RightNode())
 	}
 
 	return n
+}
+
+// flattenedNodeHeader returns a new node of the same kind with the same tag,
+// value and pointer, but without any children.
+func flattenedNodeHeader(n Node) Node {
+	switch n.(type) {
+	case *IndividualNode, *FamilyNode, *HusbandNode, *WifeNode, *ChildNode:
+		// These cannot be created without a document or family. Only the tag,
+		// value and pointer are needed for a flattened node.
+		return newSimpleNode(n.Tag(), n.Value(), n.Pointer())
+	}
+
+	return NewNode(n.Tag(), n.Value(), n.Pointer())
 }
 
 func (nd *NodeDiff) Tag() Tag {
